@@ -953,6 +953,18 @@ public:
         sandbox_callback_interceptor<detail::rlbox_remove_wrapper_t<T_Ret>,
                                      detail::rlbox_remove_wrapper_t<T_Args>...>;
 
+      // If the sandbox implementation refuses the registration (e.g. it has
+      // no free slot) and the abort is recoverable, the key must not stay
+      // behind, or the function could never be registered again
+      auto on_refusal = detail::make_scope_exit([&] {
+        std::lock_guard<std::mutex> lock(callback_lock);
+        auto el_ref =
+          std::find(callback_keys.begin(), callback_keys.end(), unique_key);
+        if (el_ref != callback_keys.end()) {
+          callback_keys.erase(el_ref);
+        }
+      });
+
       auto callback_trampoline = this->template impl_register_callback<
         detail::convert_to_sandbox_equivalent_t<
           detail::rlbox_remove_wrapper_t<T_Ret>,
@@ -960,6 +972,8 @@ public:
         detail::convert_to_sandbox_equivalent_t<
           detail::rlbox_remove_wrapper_t<T_Args>,
           T_Sbx>...>(unique_key, reinterpret_cast<void*>(callback_interceptor));
+
+      on_refusal.release();
 
       auto tainted_func_ptr = reinterpret_cast<
         detail::rlbox_tainted_opaque_to_tainted_t<T_Ret, T_Sbx> (*)(
